@@ -89,16 +89,16 @@ func TestVerifDriver(t *testing.T) {
 	}
 
 	VRun(t, "kratos", []VCase{
-		{Ep: "SentinelClientMiddleware", Variant: "default", Wraps: true, Errsig: true, Fb: "default", Res: op("d"), Send: mk(op("d"), false)},
-		{Ep: "SentinelClientMiddleware", Variant: "extractor", Options: []string{"WithResourceExtract"}, Wraps: true, Errsig: true, Fb: "default",
+		{Ep: "SentinelClientMiddleware", Side: "client", Variant: "default", Wraps: true, Errsig: true, Fb: "default", Res: op("d"), Send: mk(op("d"), false)},
+		{Ep: "SentinelClientMiddleware", Side: "client", Variant: "extractor", Options: []string{"WithResourceExtract"}, Wraps: true, Errsig: true, Fb: "default",
 			Res: custom("e"), Send: mkCustom("e", extract)},
-		{Ep: "SentinelClientMiddleware", Variant: "fallback", Options: []string{"WithBlockFallback"}, Wraps: true, Errsig: true, Fb: "custom",
+		{Ep: "SentinelClientMiddleware", Side: "client", Variant: "fallback", Options: []string{"WithBlockFallback"}, Wraps: true, Errsig: true, Fb: "custom",
 			Res: op("f"), Send: mk(op("f"), false, fallback)},
-		{Ep: "SentinelClientMiddleware", Variant: "extractor+fallback+outlier-off", Options: []string{"WithResourceExtract", "WithBlockFallback", "WithEnableOutlier"},
+		{Ep: "SentinelClientMiddleware", Side: "client", Variant: "extractor+fallback+outlier-off", Options: []string{"WithResourceExtract", "WithBlockFallback", "WithEnableOutlier"},
 			Wraps: true, Errsig: true, Fb: "custom", Res: custom("ef"), Send: mkCustom("ef", extract, fallback, off)},
-		{Ep: "SentinelClientMiddleware", Variant: "outlier", Options: []string{"WithEnableOutlier"}, Wraps: true, Errsig: true, Fb: "default", Private: true,
+		{Ep: "SentinelClientMiddleware", Side: "client", Variant: "outlier", Options: []string{"WithEnableOutlier"}, Wraps: true, Errsig: true, Fb: "default", Private: true,
 			Res: svc("outlier"), Send: mk(svc("outlier"), true, on)},
-		{Ep: "SentinelClientMiddleware", Variant: "outlier+fallback", Options: []string{"WithEnableOutlier", "WithBlockFallback"}, Wraps: true, Errsig: true,
+		{Ep: "SentinelClientMiddleware", Side: "client", Variant: "outlier+fallback", Options: []string{"WithEnableOutlier", "WithBlockFallback"}, Wraps: true, Errsig: true,
 			Fb: "custom", Private: true, Res: svc("outlier+fallback"), Send: mk(svc("outlier+fallback"), true, on, fallback)},
 	})
 }
